@@ -266,14 +266,36 @@ def check_drain_clear(ctx):
 
 
 # -- C16-c, d, e, f : the block loops --------------------------------------------------------
-def _bufsize_expr(expr, fn):
-    """'n' if expr denotes self.bufsize (or a local alias of it), 'n-1' for that minus one, else None."""
+def _bufsize_aliases(fn):
     alias = set()
     for n in A.walk_local(fn):
         if isinstance(n, ast.Assign) and A.src(n.value) == "self.bufsize":
             for t in n.targets:
                 if isinstance(t, ast.Name):
                     alias.add(t.id)
+    return alias
+
+
+def _counters(fn):
+    """Locals incremented by one (`x += 1`): fill counters."""
+    return {n.target.id for n in A.walk_local(fn) if isinstance(n, ast.AugAssign) and isinstance(n.op, ast.Add)
+            and isinstance(n.target, ast.Name) and A.is_const(n.value, 1)}
+
+
+def _run_aliases(fn):
+    """Expressions that denote the wrapped element's run method."""
+    out = {"self._el.run"}
+    for n in A.walk_local(fn):
+        if isinstance(n, ast.Assign) and A.src(n.value) == "self._el.run":
+            for t in n.targets:
+                if isinstance(t, ast.Name):
+                    out.add(t.id)
+    return out
+
+
+def _bufsize_expr(expr, fn):
+    """'n' if expr denotes self.bufsize (or a local alias of it), 'n-1' for that minus one, else None."""
+    alias = _bufsize_aliases(fn)
     # locals of an enclosing function are visible in nested classes through the constructor argument only
     def base(e):
         return A.src(e) == "self.bufsize" or (isinstance(e, ast.Name) and e.id in alias)
@@ -377,6 +399,8 @@ COMPLETE_COUNTS = ("len(", ".count", "nfills")
 def _completeness(p, fn):
     """Facts on path p: ('complete', True/False) per completeness test, ('remainder', True/False)."""
     out = {"complete": None, "remainder": None}
+    bs_names = _bufsize_aliases(fn) | {"self.bufsize"}
+    counters = _counters(fn)
     for t, pol in p.literals():
         s = A.src(t)
         if s == "self._yield_on_remainder":
@@ -387,7 +411,7 @@ def _completeness(p, fn):
             coef, const, op = lc if pol else K.negate_linear(lc)
             names = sorted(coef)
             cnt = [n for n in names if n.startswith("len(") or n.endswith(".count")]
-            bs = [n for n in names if n in ("bufsize", "self.bufsize")]
+            bs = [n for n in names if n in bs_names]
             if len(names) == 2 and len(cnt) == 1 and len(bs) == 1 and const == 0:
                 # count - bufsize < 0  (incomplete)  /  bufsize - count <= 0 (complete)
                 if coef[cnt[0]] == 1 and coef[bs[0]] == -1 and op == "<":
@@ -401,7 +425,7 @@ def _completeness(p, fn):
                 else:
                     out["complete"] = "other:" + s
             continue
-        if isinstance(t, ast.BinOp) and isinstance(t.op, ast.Mod) and A.src(t.left) == "nfills" \
+        if isinstance(t, ast.BinOp) and isinstance(t.op, ast.Mod) and isinstance(t.left, ast.Name) and t.left.id in counters \
                 and _bufsize_expr(t.right, fn) == "n":
             out["complete"] = not pol
     return out
@@ -478,6 +502,7 @@ def check_block_loops(ctx):
     if not ctx.require(len(loops) == 3, "C16-e", fn, "_run_run: expected three block loops (remainder / buffer input / buffer output)"):
         return
     n = 0
+    run_names = _run_aliases(fn)
     for loop in loops:
         conds = []
         child = loop
@@ -494,7 +519,7 @@ def check_block_loops(ctx):
         for p in P.loop_body_paths(loop):
             n += 1
             ys = p.yields()
-            runs = [i for i, c in p.calls() if A.src(c.func) in ("el_run", "self._el.run")]
+            runs = [i for i, c in p.calls() if A.src(c.func) in run_names]
             facts = _completeness(p, fn)
             in_stop = any(e[0] == "exc" and e[1].type is not None and res.canon(e[1].type) == "builtins.StopIteration" for e in p.ev)
             if mode == "remainder":
@@ -623,7 +648,9 @@ def check_construction(ctx):
         # buffers
         bin_ = [s for s in p.stmts() if isinstance(s, ast.Assign) and any(A.is_self_attr(t, "_buffer_in") for t in s.targets)]
         bout = [s for s in p.stmts() if isinstance(s, ast.Assign) and any(A.is_self_attr(t, "_buffer_out") for t in s.targets)]
-        has_fill = ("callable(el_fill)", True) in [(A.src(t), pol) for t, pol in p.literals()]
+        fmap = {st.targets[0].id: "el_fill" for st in A.walk_local(init) if isinstance(st, ast.Assign) and len(st.targets) == 1
+                and isinstance(st.targets[0], ast.Name) and A.src(st.value) in ("getattr(el, fill, None)", "getattr(el, fill)")}
+        has_fill = ("callable(el_fill)", True) in [(A.src_with(t, fmap), pol) for t, pol in p.literals()]
         if has_fill:
             mode = [pol for t, pol in p.literals() if A.src(t) == "self._buffer_input"]
             ok = len(bin_) + len(bout) == 1 and all(A.src(s.value) in ("[]", "list()") for s in bin_ + bout) and bool(mode) \
@@ -639,8 +666,15 @@ def check_construction(ctx):
     ctx.instances_floor("C16-g/init", n, 8, "normal exits of FillRequest.__init__")
     # the raise for bad bufsize / bad mode
     rs = [r for r in A.walk_local(init) if isinstance(r, ast.Raise) and r.exc is not None]
+    mm = {}
+    for st in A.walk_local(init):
+        if isinstance(st, ast.Assign) and len(st.targets) == 1 and isinstance(st.targets[0], ast.Name):
+            if A.src(st.value) in ("bool(buffer_input)", "buffer_input"):
+                mm[st.targets[0].id] = "bi"
+            elif A.src(st.value) in ("bool(buffer_output)", "buffer_output"):
+                mm[st.targets[0].id] = "bo"
     for what, test_has in (("bufsize", "bufsize < 1"), ("buffering mode", "int(bi) + int(bo) != 1")):
-        hit = [r for r in rs if A.enclosing(r, ast.If) is not None and test_has in A.src(A.enclosing(r, ast.If).test)]
+        hit = [r for r in rs if A.enclosing(r, ast.If) is not None and test_has in A.src_with(A.enclosing(r, ast.If).test, mm)]
         ok = len(hit) == 1 and res.canon(hit[0].exc.func if isinstance(hit[0].exc, ast.Call) else hit[0].exc) == EXC + "LenaValueError"
         ctx.check("C16-g", ok, init, "FillRequest.__init__ does not reject a bad %s with LenaValueError" % what,
                   detail="bad %s -> LenaValueError" % what, construct="init-raise:" + what)
